@@ -30,11 +30,36 @@ RULES = ("TEN-1 einsum kinds incl. node roles; BEL-2 system matrix I - gamma*T_m
          "fresh w.r.t. controller writes; WIRE-1 reported value / controller wiring; VALID-1 strategies normalised by construction")
 
 
-def _defs(fi: FunctionInfo, name: Optional[str]) -> List[ast.Assign]:
-    """the assignments `name = ...` in fi's own body."""
-    if not name:
-        return []
-    return [n for n in fn_body_nodes(fi) if isinstance(n, ast.Assign) and len(n.targets) == 1 and isinstance(n.targets[0], ast.Name) and n.targets[0].id == name]
+def _single(S: "pat.Snips", v) -> bool:
+    """the role `v` of a solved pattern denotes ONE value: either the code wrote the expression in place (pat.Virtual: the occurrence is its
+    own and only definition) or it is a local with exactly one store in the whole function."""
+    return isinstance(v, pat.Virtual) or (isinstance(v, str) and v in S.defs)
+
+
+def _resolve(S: "pat.Snips", node: Optional[ast.AST]) -> Optional[ast.AST]:
+    """`node`, or the defining expression when it is a single-assignment temporary (followed transitively)."""
+    seen = set()
+    while isinstance(node, ast.Name) and node.id in S.defs and node.id not in seen:
+        seen.add(node.id)
+        node = S.defs[node.id]
+    return node
+
+
+def _mentions_attr(S: "pat.Snips", node: Optional[ast.AST], attr: str, depth: int = 6) -> bool:
+    """an attribute `.attr` is read by `node` or by the (single) definitions of the temporaries it is made of."""
+    if node is None or depth < 0:
+        return False
+    for x in ast.walk(node):
+        if isinstance(x, ast.Attribute) and x.attr == attr:
+            return True
+        if isinstance(x, ast.Name) and x.id in S.defs and S.defs[x.id] is not node and _mentions_attr(S, S.defs[x.id], attr, depth - 1):
+            return True
+    return False
+
+
+def _returned_calls(S: "pat.Snips", fi: FunctionInfo) -> List[ast.Return]:
+    """the return statements of fi's own body whose value is a call, possibly through a temporary."""
+    return [n for n in fn_body_nodes(fi) if isinstance(n, ast.Return) and isinstance(_resolve(S, n.value), ast.Call)]
 
 
 class _ToRoles(ast.NodeTransformer):
@@ -71,17 +96,19 @@ def rule_evaluator(ctx: Ctx):
     # the cross-product einsum binds exactly the expected operands
     es = [c for c in fn_body_nodes(f) if isinstance(c, ast.Call) and ast.unparse(c.func) == "torch.einsum"]
     if es:
-        # operands: the two strategies are parameters; T / O are the locals defined as the tensors of the POMDP's transition / observation matrix
+        # operands: the two strategies are parameters; T / O are the tensors of the POMDP's transition / observation matrix, named by a
+        # (single-assignment) local or written in place
         tenv: Dict[str, object] = {}
         for role, pattern in (("T", "T = torch.tensor(pomdp.transition_matrix, REST=ANY)"), ("O", "O = torch.tensor(pomdp.observation_matrix, REST=ANY)")):
             hits = S.find(pattern)
-            if len(hits) == 1 and len(_defs(f, hits[0][1][role])) == 1:
+            if len({pat.txt(h[1][role]) for h in hits}) == 1 and _single(S, hits[0][1][role]):
                 tenv[role] = hits[0][1][role]
         ok = len(tenv) == 2 and S.m("torch.einsum(ANY, fsc_action, T, O, fsc_state)", es[0], tenv) is not None
         ops = [_roles(a, tenv) for a in es[0].args[1:]]
         ctx.check(ok, "TEN-1", f, es[0], "chain einsum contracts (action strategy, T, O, node strategy)", str(ops),
                   f"chain is built from {ops} (<T>/<O>: the tensor of pomdp.transition_matrix / pomdp.observation_matrix)")
-        spec = es[0].args[0].value.replace(" ", "")
+        spec_node = _resolve(S, es[0].args[0])
+        spec = spec_node.value.replace(" ", "")
         ins, out = spec.split("->")
         subs = ins.split(",")
         # output pairs (node, state) -> (next node, next state)
@@ -111,15 +138,14 @@ def rule_evaluator(ctx: Ctx):
     ctx.check(ok, "BEL-2", ifi, inode, "evaluator: system matrix is eye - gamma*T_mu", "", f"system matrix is `{show(A, 60)}`")
     # reward vector C_mu = fsc_action @ R.T
     # Cmu is the vector the inverted system is applied to (the product is the reported value table); R is what Cmu weights by the strategy
-    cb = S.solve(["occupancy = E_sys.inverse()", "V = occupancy @ Cmu.view(ANY)", "Result(state_controller_value=V, REST=ANY)"])
+    # (definitions are listed before their uses, so that a role the code writes in place is bound virtually and then matched by text)
+    cb = S.solve(["occupancy = E_sys.inverse()", "Cmu = fsc_action @ E_R.T", "V = occupancy @ Cmu.view(ANY)", "Result(state_controller_value=V, REST=ANY)"])
     cenv = dict(cb[0]) if cb else {}
-    cm = _defs(f, cenv.get("Cmu"))
-    ce = S.m("Cmu = fsc_action @ R.T", cm[0], cenv) if len(cm) == 1 else None
-    ok = ce is not None
-    ctx.check(ok, "BEL-2", f, cm[0] if cm else f.node, "evaluator: C_mu[n, s] = sum_a pi(a|n) R(s, a)", "", "expected immediate reward is not pi . R^T")
-    rdef = _defs(f, ce["R"]) if ce else []
-    ok = len(rdef) == 1 and "state_action_reward_matrix" in ast.unparse(rdef[0].value)
-    ctx.check(ok, "BEL-2", f, rdef[0] if rdef else f.node, "evaluator: R is the state-action reward matrix", "", "reward source changed")
+    ok = cb is not None and _single(S, cenv["Cmu"])
+    ctx.check(ok, "BEL-2", f, cb[1][1] if cb else f.node, "evaluator: C_mu[n, s] = sum_a pi(a|n) R(s, a)", "", "expected immediate reward is not pi . R^T")
+    rnode = cenv.get("R") if ok else None
+    ok = isinstance(rnode, ast.AST) and (not isinstance(rnode, ast.Name) or rnode.id in S.defs) and _mentions_attr(S, rnode, "state_action_reward_matrix")
+    ctx.check(ok, "BEL-2", f, rnode if isinstance(rnode, ast.AST) else f.node, "evaluator: R is the state-action reward matrix", "", "reward source changed")
     # BEL-1: episode ends on entering an absorbing state -> mask must reach chain and reward
     vterm = None
     for x in walk(term):
@@ -139,12 +165,19 @@ def rule_evaluator(ctx: Ctx):
             ok = any(a in leaves for a in need.split("|"))
             ctx.check(ok, "BEL-1", f, f.node, f"evaluator: value depends on {need}", "", f"value table does not depend on {need}")
     # initial distributions
-    ib = S.solve(["Result(state_controller_value=V, expected_value=state_value @ s0, REST=ANY)",
+    ib = S.solve(["s0 = torch.tensor(pomdp.initial_state_vec, REST, REST=ANY)",
                   "state_value = fsc_initial_state @ V",
-                  "s0 = torch.tensor(pomdp.initial_state_vec, REST, REST=ANY)"])
-    ok = ib is not None and len(_defs(f, ib[0]["state_value"])) == 1 and len(_defs(f, ib[0]["s0"])) == 1
+                  "Result(state_controller_value=V, expected_value=state_value @ s0, REST=ANY)"])
+    ok = ib is not None and _single(S, ib[0]["state_value"]) and _single(S, ib[0]["s0"])
     ctx.check(ok, "INIT-1", f, f.node, "expected value = initial node distribution . V . initial state distribution", "", "expected value is not <fsc_initial_state, V, initial_state_vec>")
-    asserts = [a for a in fn_body_nodes(f) if isinstance(a, ast.Assert) and "allclose" in ast.unparse(a.test) and "sum" in ast.unparse(a.test)]
+    # each strategy has its own row-sum assertion (the summed strategy may be named by a temporary)
+    asserts = []
+    for strat in ("fsc_action", "fsc_state"):
+        hit = None
+        for pattern in (f"assert torch.allclose({strat}.sum(REST, REST=ANY), REST, REST=ANY)", f"assert torch.allclose(ANY, {strat}.sum(REST, REST=ANY), REST, REST=ANY)"):
+            hit = hit or S.first(pattern)[0]
+        if hit is not None:
+            asserts.append(hit)
     ctx.check(len(asserts) >= 2, "VALID-1", f, asserts[0] if asserts else f.node, "evaluator asserts both strategies are row-stochastic", "", "row-sum assertions on the strategies are gone")
 
 
@@ -153,15 +186,17 @@ def rule_execution(ctx: Ctx):
     C = P.cls("StochasticFiniteStateController")
     ad = C.methods["action_dist"]
     ag = ad.positional_params[1]
-    src = ast.unparse(ad.node)
-    ok = f"{ag} @ self.action_strategy" in src
+    Sd = pat.Snips(ad)
+    # the mixture is a role: named by a local, or written in place where it is used
+    mb = Sd.solve([f"mix = {ag} @ self.action_strategy"])
+    ok = mb is not None and _single(Sd, mb[0]["mix"])
     ctx.check(ok, "EXEC-1", ad, ad.node, "action distribution = node distribution @ action strategy", "", "action mixture is not <node distribution, action strategy>")
-    dc = [n for n in ast.walk(ad.node) if isinstance(n, ast.DictComp)]
-    ok = bool(dc) and ast.unparse(dc[0].generators[0].iter) == "enumerate(self.pomdp.action_list)"
-    if ok:
-        i, a = [e.id for e in dc[0].generators[0].target.elts]
-        ok = ast.unparse(dc[0].key) == a and isinstance(dc[0].value, ast.Subscript) and ast.unparse(dc[0].value.slice) == i
-    ctx.check(ok, "EXEC-1", ad, dc[0] if dc else ad.node, "action probabilities are labelled with action_list in order", "", "mixture entries are paired with the wrong actions")
+    # ... and its entries are labelled with the actions in action_list order (entry i <-> i-th action)
+    lab = "{a: mix[i] for i, a in enumerate(self.pomdp.action_list)}"
+    dc, _e = Sd.first(lab, {"mix": mb[0]["mix"]}) if ok else Sd.first(lab.replace("mix", "E_mix"))
+    anydc = [n for n in ast.walk(ad.node) if isinstance(n, ast.DictComp)]
+    ctx.check(dc is not None, "EXEC-1", ad, dc if dc is not None else (anydc[0] if anydc else ad.node), "action probabilities are labelled with action_list in order", "",
+              "mixture entries are paired with the wrong actions")
     na = C.methods["next_agentstate"]
     t = X.returns(na)
     takes_rng = any(p in ("rng", "rnd") for p in na.param_names)
@@ -173,26 +208,29 @@ def rule_execution(ctx: Ctx):
                   "the agent state is a *distribution over nodes* (action_dist is the mixture ag @ action_strategy and next_agentstate draws no sample), "
                   "so after observing its own action the node distribution must be re-weighted by action_strategy[:, a]; the update reads only "
                   "observation_strategy[:, a, o], so executed action/observation histories do not have the probabilities the controller defines")
-    # index provenance: the index locals are identified by their definitions (position of the given action / observation)
+    # index provenance: an index is identified by what it is (the position of the given action / observation), whether a local names it or
+    # it is written in place inside the subscript
     a_p, o_p = na.positional_params[2], na.positional_params[3]
     Sn = pat.Snips(na)
-    ib = Sn.solve([f"oi = self.pomdp.observation_index[{o_p}]", f"ai = self.pomdp.action_list.index({a_p})"])
-    ienv = ib[0] if ib else {}
-    ok = ib is not None and ienv["ai"] != ienv["oi"] and len(_defs(na, ienv["ai"])) == 1 and len(_defs(na, ienv["oi"])) == 1
-    index_role = {ienv["ai"]: ("A", "action index"), ienv["oi"]: ("O", "observation index")} if ok else {}
+    index_def = (("A", "action index", f"self.pomdp.action_list.index({a_p})"), ("O", "observation index", f"self.pomdp.observation_index[{o_p}]"))
+    used = set()
     for sub in ast.walk(na.node):
         if isinstance(sub, ast.Subscript) and isinstance(sub.value, ast.Attribute) and sub.value.attr == "observation_strategy":
             items = list(sub.slice.elts) if isinstance(sub.slice, ast.Tuple) else [sub.slice]
             roles = ("N", "A", "O", "N2")
             for k, it in enumerate(items):
-                if isinstance(it, ast.Name) and it.id in index_role:
-                    want, what = index_role[it.id]
+                if isinstance(it, ast.Slice) or k >= len(roles):
+                    continue
+                for want, what, src in index_def:
+                    if Sn.m(src, it) is None:          # definition-transparent: a single-assignment local stands for its definition
+                        continue
+                    used.add(want)
                     ctx.check(roles[k] == want, "IDX-1", na, sub, f"observation_strategy axis {k} ({roles[k]}) indexed by the {what}", "",
                               f"the {what} indexes axis {k} of the node-transition strategy, whose role is {roles[k]}")
-    ctx.check(ok, "IDX-1", na, na.node, "action / observation indices are the positions of the given action / observation", "",
+    ctx.check(used == {"A", "O"}, "IDX-1", na, na.node, "action / observation indices are the positions of the given action / observation", "",
               "index variables are not derived from the given action and observation")
     ia = C.methods["initial_agentstate"]
-    ctx.check("return self.initial_state_dist" in ast.unparse(ia.node), "EXEC-1", ia, ia.node, "initial agent state is the initial node distribution", "", "initial agent state changed")
+    ctx.check(pat.Snips(ia).has("return self.initial_state_dist"), "EXEC-1", ia, ia.node, "initial agent state is the initial node distribution", "", "initial agent state changed")
     init = C.methods["__init__"]
     n_asserts = sum(isinstance(n, ast.Assert) for n in ast.walk(init.node))
     ctx.check(n_asserts >= 3, "VALID-1", init, init.node, "controller constructor asserts the three strategy shapes", "", "shape assertions removed")
@@ -213,11 +251,10 @@ def rule_bpi(ctx: Ctx):
     writes: List[ast.stmt] = []
     for n in fn_body_nodes(f):
         if isinstance(n, ast.Expr) and isinstance(n.value, ast.Call) and "add_to_fsc" in ast.unparse(n.value.func):
-            ip = kwarg(n.value, "inplace")
+            ip = _resolve(S, kwarg(n.value, "inplace"))
             if ip is not None and isinstance(ip, ast.Constant) and ip.value is True:
                 writes.append(n)
-        if isinstance(n, ast.Assign) and isinstance(n.targets[0], ast.Tuple) and [ast.unparse(e) for e in n.targets[0].elts] == [A_, S_] \
-                and "add_to_fsc" in ast.unparse(n.value):
+        if isinstance(n, ast.Assign) and S.m("fsc_action, fsc_state = ANY.add_to_fsc(REST, REST=ANY)", n, env) is not None:
             writes.append(n)
     if not writes:
         ctx.violation("CFG-3", f, f.node, "controller writes in the improvement loop", "no controller write recognised")
@@ -251,7 +288,7 @@ def rule_bpi(ctx: Ctx):
         ctx.check(ok, "WIRE-1", val, val.node, "value(...) is the exact evaluation of its own arguments on this POMDP", "", "value() does not evaluate the controller it is given")
     # initial node: best node for the initial state distribution
     icv, e1 = S.first(f"initial_controller_values = V @ {pomdp}.initial_state_vec", env)
-    ok = icv is not None and len(_defs(f, e1["initial_controller_values"])) == 1
+    ok = icv is not None and _single(S, e1["initial_controller_values"])
     ctx.check(ok, "WIRE-1", f, icv if icv is not None else f.node, "initial controller values = V @ initial_state_vec", "", "initial controller values are not V @ initial_state_vec")
     if ok:
         env["initial_controller_values"] = e1["initial_controller_values"]
@@ -261,9 +298,9 @@ def rule_bpi(ctx: Ctx):
         env["fsc_initial_state"] = e2["fsc_initial_state"]
     bound = "fsc_initial_state" in env
     # result wiring
-    rets = [n for n in fn_body_nodes(f) if isinstance(n, ast.Return) and isinstance(n.value, ast.Call)]
+    rets = _returned_calls(S, f)
     if rets:
-        r = rets[0].value
+        r = _resolve(S, rets[0].value)
         pol = kwarg(r, "policy")
         ok = bound and pol is not None and S.m(f"StochasticFiniteStateController({pomdp}, fsc_action, fsc_state, fsc_initial_state)", pol, env) is not None
         ctx.check(ok, "WIRE-1", f, rets[0], "returned controller is built from the improved strategies", "", f"returned policy is `{_roles(pol, env)}`")
@@ -271,7 +308,7 @@ def rule_bpi(ctx: Ctx):
         ok = bound and v is not None and S.m("fsc_initial_state @ initial_controller_values", v, env) is not None
         ctx.check(ok, "WIRE-1", f, rets[0], "reported value = initial node distribution . (V . initial_state_vec)", "", f"reported value is `{_roles(v, env)}`")
         scv = kwarg(r, "state_controller_value")
-        ctx.check(isinstance(scv, ast.Name) and scv.id == V_, "WIRE-1", f, rets[0], "reported state_controller_value is V", "", "reported value table is not V")
+        ctx.check(S.m("V", scv, env) is not None, "WIRE-1", f, rets[0], "reported state_controller_value is V", "", "reported value table is not V")
     # monotonicity assertion precedes the in-place update (of the same improvement result)
     mb = S.solve(["assert_value_improvement(V, lambda: r.add_to_fsc(fsc_action, fsc_state, inplace=False))", "r.add_to_fsc(fsc_action, fsc_state, inplace=True)"], env)
     ok = mb is not None and (mb[1][0].lineno, mb[1][0].col_offset) < (mb[1][1].lineno, mb[1][1].col_offset)
@@ -289,53 +326,82 @@ def rule_bpi(ctx: Ctx):
                    "c_a = canz[:, ANY, :].sum(axis=-1)",
                    "observation_strategy = canz / c_a[:, None, None]",
                    "assert np.allclose(observation_strategy.sum(-1), 1)"])
-    ok = nb is not None and all(len(_defs(imp, nb[0][k])) == 1 for k in ("canz", "c_a"))
+    ok = nb is not None and all(_single(Si, nb[0][k]) for k in ("canz", "c_a"))
     ctx.check(ok, "VALID-1", imp, imp.node, "improved node strategy: c_{a,n_z}/c_a with row-sum assertion", "", "node strategy normalisation / assertion changed")
     atf = imp.nested.get("add_to_fsc")
     ok = False
     if nb is not None and atf is not None and len(atf.positional_params) == 2:
         ienv = {k: nb[0][k] for k in ("c_a", "observation_strategy")}
-        ab = Si.solve(["action_strategy = c_a"], ienv)
-        if ab is not None:
-            ienv = dict(ab[0], arg0=atf.positional_params[0], arg1=atf.positional_params[1])
-            Sa = pat.Snips(atf)
-            ok = Sa.has(f"arg0[{node_p}] = action_strategy", ienv) and Sa.has(f"arg1[{node_p}] = observation_strategy", ienv)
+        ienv.update(arg0=atf.positional_params[0], arg1=atf.positional_params[1])
+        Sa = pat.Snips(atf)
+        # the improved action strategy IS c_a: written as c_a itself or through a (single-assignment) alias of it
+        alias = [ienv["c_a"]] + [e["action_strategy"] for _n, e in Si.find("action_strategy = c_a", ienv) if _single(Si, e["action_strategy"])]
+        ok = any(Sa.has(f"arg0[{node_p}] = action_strategy", dict(ienv, action_strategy=x)) for x in alias) \
+            and Sa.has(f"arg1[{node_p}] = observation_strategy", ienv)
     ctx.check(ok, "VALID-1", imp, imp.node, "add_to_fsc writes the improved node's own rows", "", "improved strategies are written to the wrong rows")
+
+
+def _softmax_of(S: "pat.Snips", node: Optional[ast.AST]):
+    """('softmax', logit variable, axis text) when `node` is -- directly or through a single-assignment temporary -- `<logit>.softmax(<axis>)` of
+    a *named* logit (distinct logits are never identified by the text of their initialisers); otherwise ('expr', text)."""
+    if node is None:
+        return ("none",)
+    e = S.m("logit.softmax(E_axis)", node)
+    if e is not None and isinstance(e["logit"], str):
+        return ("softmax", e["logit"], pat.txt(e["axis"]))
+    return ("expr", pat.txt(node))
 
 
 def rule_ga(ctx: Ctx):
     P = ctx.P
     f = P.method("FSCGradientAscent", "train_on")
+    pomdp = f.positional_params[1]
     S = pat.Snips(f, literals=set(f.nested))
     val = f.nested.get("value")
-    rets = [n for n in fn_body_nodes(f) if isinstance(n, ast.Return) and isinstance(n.value, ast.Call)]
+    rets = _returned_calls(S, f)
     if val is None or not rets:
         raise AnalysisError("FSCGradientAscent.train_on: value closure / result vanished")
-    c = [x for x in ast.walk(val.node) if isinstance(x, ast.Call) and "stochastic_fsc_policy_evaluation_exact" in ast.unparse(x.func)]
+    Sv = pat.Snips(val, literals=set(f.nested))
+    res = _resolve(S, rets[0].value)
+    c = [n for n, _e in Sv.find("stochastic_fsc_policy_evaluation_exact(REST, REST=ANY)")]
+    # the controller that is evaluated / returned: each strategy in canonical form (which logit, softmax over which axis), so that it does not
+    # matter whether `<logit>.softmax(-1)` is written in place or named by a temporary
     ev_nodes = (list(c[0].args[1:]) + [kwarg(c[0], "fsc_initial_state")]) if c else []
-    ev_args = [ast.unparse(a) if a is not None else "None" for a in ev_nodes]
-    pol = kwarg(rets[0].value, "policy")
+    pol = _resolve(S, kwarg(res, "policy"))
     pol_nodes = list(pol.args[1:]) if isinstance(pol, ast.Call) else []
-    pol_args = [ast.unparse(a) for a in pol_nodes]
+    ev_can = [_softmax_of(Sv, a) for a in ev_nodes]
+    pol_can = [_softmax_of(S, a) for a in pol_nodes]
     # the logit locals, named by their position in the returned controller
     lenv: Dict[str, object] = {}
-    for role, a in zip(("action_logit", "node_logit", "initial_node_logit"), pol_nodes):
-        b = a.func.value if isinstance(a, ast.Call) and isinstance(a.func, ast.Attribute) else a
-        if isinstance(b, ast.Name):
-            lenv[role] = b.id
-    shown = [_roles(a, lenv) for a in pol_nodes]
-    ctx.check(bool(ev_args) and ev_args == pol_args, "WIRE-1", f, rets[0], "returned controller and evaluated controller are the same softmax of the same logits", str(shown),
-              f"the evaluated controller {[_roles(a, lenv) for a in ev_nodes]} differs from the returned one {shown}")
-    ctx.check(all(a.endswith(".softmax(-1)") for a in pol_args) and len(pol_args) == 3, "VALID-1", f, rets[0], "returned strategies are softmax over the last axis", "", "returned strategies are not softmax(-1) of the logits")
-    v = kwarg(rets[0].value, "value")
-    ok = v is not None and ast.unparse(v) == "value()"
+    for role, k in zip(("action_logit", "node_logit", "initial_node_logit"), pol_can):
+        if k[0] == "softmax":
+            lenv[role] = k[1]
+        elif k[0] == "expr" and k[1].isidentifier():
+            lenv[role] = k[1]
+
+    def show_can(ks):
+        inv = {v: r for r, v in lenv.items()}
+        return [(f"<{inv[k[1]]}>.softmax({k[2]})" if k[1] in inv else "<other logit>.softmax(%s)" % k[2]) if k[0] == "softmax"
+                else (f"<{inv[k[1]]}>" if k[0] == "expr" and k[1] in inv else (k[1] if len(k) > 1 else "None")) for k in ks]
+    shown = show_can(pol_can)
+    ctx.check(bool(ev_can) and ev_can == pol_can, "WIRE-1", f, rets[0], "returned controller and evaluated controller are the same softmax of the same logits", str(shown),
+              f"the evaluated controller {show_can(ev_can)} differs from the returned one {shown}")
+    ctx.check(len(pol_can) == 3 and all(k[0] == "softmax" and k[2] == "-1" for k in pol_can), "VALID-1", f, rets[0], "returned strategies are softmax over the last axis", "",
+              "returned strategies are not softmax(-1) of the logits")
+    # the reported value is a call of value() that is executed after the optimisation loop(s): a temporary is looked through, but only to a
+    # definition that itself lies behind every loop (a `result = value()` inside the loop is a stale evaluation)
+    v = _resolve(S, kwarg(res, "value"))
+    loops = [n for n in fn_body_nodes(f) if isinstance(n, (ast.For, ast.While))]
+    opt_loops = [lp for lp in loops if S.has("ANY.step()", within=lp) or S.has("ANY.backward()", within=lp)]
+    ok = v is not None and S.m("value()", v) is not None and isinstance(v, ast.Call) and all(v.lineno > lp.end_lineno for lp in opt_loops)
     ctx.check(ok, "CFG-3", f, rets[0], "reported value is evaluated after the last optimiser step", "", "reported value is a stale evaluation from inside the optimisation loop")
-    ctx.check(bool(c) and ast.unparse(c[0].args[0]) == f.positional_params[1], "WIRE-1", val, c[0] if c else val.node, "evaluation runs on the given POMDP", "", "evaluation runs on a different problem")
+    ok = bool(c) and Sv.m(f"stochastic_fsc_policy_evaluation_exact({pomdp}, REST, REST=ANY)", c[0]) is not None
+    ctx.check(ok, "WIRE-1", val, c[0] if c else val.node, "evaluation runs on the given POMDP", "", "evaluation runs on a different problem")
     # objective: the loss that is back-propagated is minus the expected value of the current evaluation
     ob = None
-    for lp in [n for n in fn_body_nodes(f) if isinstance(n, (ast.For, ast.While))]:
+    for lp in loops:
         ob = ob or S.solve(["result = value()", "loss = -result.expected_value", "loss.backward()"], within=lp)
-    ok = ob is not None and len(_defs(f, ob[0]["result"])) == 1 and len(_defs(f, ob[0]["loss"])) == 1
+    ok = ob is not None and _single(S, ob[0]["result"]) and _single(S, ob[0]["loss"])
     ctx.check(ok, "WIRE-1", f, ob[1][1] if ob else f.node, "ascent maximises the expected value at the initial distributions", "", "objective changed")
 
 
